@@ -140,6 +140,14 @@ func traceSpecStep(op int, ev []mon.Event, res stepResult, presented []byte, rec
 	return ""
 }
 
+// histTail: the last 80 operations (long lives would make the witness quadratic)
+func histTail(h []string) string {
+	if len(h) > 80 {
+		return fmt.Sprintf("...(%d earlier) ", len(h)-80) + strings.Join(h[len(h)-80:], " ")
+	}
+	return strings.Join(h, " ")
+}
+
 func c17History(k *core.Case) {
 	s := ref.Suites[k.Index%9]
 	raw := libsa.RandomRaw(k.R, s)
@@ -154,6 +162,10 @@ func c17History(k *core.Case) {
 	tr := libsa.Spy(long)
 	long.Prf_d = &mon.SpyHash{Name: "Prf_d", Inner: long.Prf_d, T: tr}
 	n := k.R.Pick(8, 16, 32, 64)
+	if k.Index < 9 {
+		n = k.N(300, 66000) // one long life per suite: operation counts cross 256 (quick) and 65536 (thorough)
+		k.Count("long_lived_sa_histories", 1)
+	}
 	var hist []string
 	prev := -1
 	prev2 := -1
@@ -281,7 +293,7 @@ func c17History(k *core.Case) {
 		rl := run(long)
 		ev := tr.Snapshot()
 		rf := run(fresh)
-		w := M{"suite": s.Name(), "keys": raw.JSON(), "history": strings.Join(hist, " "), "step": st, "op": opNames[op],
+		w := M{"suite": s.Name(), "keys": raw.JSON(), "history": histTail(hist), "step": st, "op": opNames[op],
 			"rand_seed": seed, "trace": tr.String()}
 		if m != nil {
 			w["msg"] = msgJSON(m)
@@ -295,7 +307,7 @@ func c17History(k *core.Case) {
 			return
 		}
 		if d := rl.equal(rf); d != "" {
-			k.Violate("history-dependence", "long-lived-differs-from-fresh/"+opNames[op], fmt.Sprintf("step %d (%s) after [%s]: %s", st, opNames[op], strings.Join(hist, " "), d), w)
+			k.Violate("history-dependence", "long-lived-differs-from-fresh/"+opNames[op], fmt.Sprintf("step %d (%s) after [%s]: %s", st, opNames[op], histTail(hist), d), w)
 			return
 		}
 		// solo contracts
@@ -348,9 +360,9 @@ func c17History(k *core.Case) {
 		}
 		prev2, prev = prev, op
 	}
-	k.Count(fmt.Sprintf("histories_len_%d", n), 1)
+	k.Count(fmt.Sprintf("histories_len_%d", minI(n, 65)), 1)
 	if k.WantSample() {
-		k.Sample(M{"suite": s.Name(), "history": strings.Join(hist, " ")})
+		k.Sample(M{"suite": s.Name(), "history": histTail(hist)})
 	}
 }
 
@@ -365,6 +377,6 @@ func c17(c *core.Ctx) {
 			req = append(req, "bigram_"+opNames[a]+">"+opNames[b])
 		}
 	}
-	req = append(req, "forgeries_keeping_the_last_accepted_checksum")
+	req = append(req, "forgeries_keeping_the_last_accepted_checksum", "long_lived_sa_histories")
 	c.Require(req...)
 }
